@@ -234,6 +234,7 @@ class StubsStringGenerator:
 
         # The generics of a previously rendered class must not hide the type variables of this class's methods
         self.class_generics = []
+        class_generic_names: list[str] = []
         if class_.type_parameters or constructor_type_vars:
             # We collect the class generics for the methods later
             for variance in class_.type_parameters:
@@ -251,11 +252,16 @@ class StubsStringGenerator:
                 if variance.type is not None:
                     variance_item = f"{variance_item} sub {self._create_type_string(variance.type.to_dict())}"
                 self.class_generics.append(variance_item)
+                class_generic_names.append(variance_name_camel_case)
 
             if constructor_type_vars:
                 for constructor_type_var in constructor_type_vars:
-                    if constructor_type_var.name not in self.class_generics:
-                        self.class_generics.append(constructor_type_var.name)
+                    # Rendered like the type parameters above, so that one that is declared already is recognised
+                    type_var_name = _convert_name_to_convention(constructor_type_var.name, self.naming_convention)
+                    type_var_name = _replace_if_safeds_keyword(type_var_name)
+                    if type_var_name not in class_generic_names:
+                        self.class_generics.append(type_var_name)
+                        class_generic_names.append(type_var_name)
 
             if self.class_generics:
                 variance_info = f"<{', '.join(self.class_generics)}>"
